@@ -52,6 +52,7 @@ ASSUMPTIONS = [
     "each source emits serially (one thread per source), as the property states",
     "atomicity: a line of Python inside reactivex/ is the preemption granularity explored; the Lean model's atomic steps "
     "are lock acquire/release, one handler step, and the three steps of an AutoDetachObserver call",
+    "window contents oracle: the k-th timer the operator creates belongs to its k-th window (true of the code as written)",
     "subscription of the combinator itself is not concurrent with emissions (rows of kind S in the lock table are not "
     "required to be locked)",
     "operations on self-synchronised disposable containers (CompositeDisposable.add/remove/len) are atomic and may "
@@ -294,6 +295,8 @@ FIXED = [
     {"op": "flat_map", "scripts": [[["I", 0], ["E", "y"]], [["N", 1], ["C"]]]},
     {"op": "window_time", "scripts": [[["N", 1], ["E", "x"]], [["T"]]]},
     {"op": "window_toc", "scripts": [[["N", 1], ["N", 2], ["C"]], [["T"]]]},
+    {"op": "window_toc", "scripts": [[["N", 1], ["N", 2], ["N", 3], ["C"]], [["T"]]], "params": {"count": 2}},
+    {"op": "window_toc", "scripts": [[["N", 1], ["N", 2], ["N", 3]], [["T"], ["T"]]], "params": {"count": 2}},
     {"op": "window_count", "scripts": [[["N", 1], ["N", 2], ["N", 3], ["C"]]], "params": {"count": 2, "skip": 1}},
     {"op": "buffer_time", "scripts": [[["N", 1], ["E", "x"]], [["T"]]]},
 ]
@@ -399,6 +402,7 @@ def impl(case):
     return {"outcome": r["outcome"], "excs": r["excs"], "steps": r["steps"], "preempted": r["preempted"],
             "labels": labels, "delivered": delivered, "max_active": mx, "acq": acq,
             "overlap": C.overlap_of(log), "grammar": C.grammar_of(log), "seq_equal": seq_equal,
+            "windows": C.window_contents_of(case, r) if (case["op"] in ("window_toc", "window_time") and r["outcome"] == "ok") else None,
             "contended": _contended(log, role)}
 
 
@@ -458,6 +462,8 @@ def oracle(case, out):
         return f"notification grammar violated at the subscriber: {out['grammar']}"
     if out["excs"]:
         return f"exception escaped into a source thread: {out['excs']}"
+    if out.get("windows"):
+        return f"windows are not the time-or-count partition of the source (stale timer acted / spurious window): {out['windows']}"
     return None
 
 
@@ -544,6 +550,10 @@ def _check(case, r):
         return ("bad", f"notification grammar violated at the subscriber: {g}")
     if r["excs"]:
         return ("bad", f"exception escaped into a source thread: {r['excs']}")
+    if case["op"] in ("window_toc", "window_time"):
+        w = C.window_contents_of(case, r)
+        if w:
+            return ("bad", f"windows are not the time-or-count partition of the source (stale timer acted / spurious window): {w}")
     return ("ok", None)
 
 
